@@ -31,7 +31,7 @@ from rpyc.core import consts
 REPLAY_CALL = REPLAY_HEAD + '''
 class Ref(object): pass
 ref = Ref()
-SHAPES = [((), {}), ((12345678901234567890, "text"), {}), (((7, ref), None), {"key": -5}), ((ref,), {"k1": ref, "k2": (1, True)})]
+SHAPES = [((), {}), ((12345678901234567890, "text"), {}), (((7, ref), None), {"key": -5}), ((ref,), {"k2": ref, "k1": (1, True), "k3": None})]
 pair = l2.Pair(config_a=dict(allow_public_attrs=True), config_b=dict(allow_public_attrs=True))
 seen = []
 def target(*a, **k):
@@ -51,7 +51,7 @@ for (a, k) in SHAPES:
     out = proxy(*a, **k)
     if len(seen) != 1: bad.append("target ran %d times" % len(seen)); continue
     sa, sk = seen[0]
-    if norm(sa, 1) != norm(a, 0) or dict((x, norm(y, 1)) for x, y in sk.items()) != dict((x, norm(y, 0)) for x, y in k.items()):
+    if norm(sa, 1) != norm(a, 0) or [(x, norm(y, 1)) for x, y in sk.items()] != [(x, norm(y, 0)) for x, y in k.items()]:
         bad.append(("callee saw", norm(sa, 1), dict((x, norm(y, 1)) for x, y in sk.items()), "sent", norm(a, 0), k.keys()))
     if out != ("ret", len(a), tuple(sorted(k))): bad.append(("caller got", str(out)))
     del seen[:]
@@ -77,7 +77,7 @@ def arg_shapes(c):
         return (SymInt(c.fresh_int("a0")), SymText.fresh(c, "a1", max_chars=1000)), {}, None
     if k == 2:
         return ((SymInt(c.fresh_int("a0")), ref), None), {"key": SymInt(c.fresh_int("kv"))}, ref
-    return (ref,), {"k1": ref, "k2": (1, SymBool(c.fresh_bool("kb")))}, ref
+    return (ref,), {"k2": ref, "k1": (1, SymBool(c.fresh_bool("kb"))), "k3": None}, ref
 
 
 def safe(x):
@@ -177,6 +177,8 @@ def ob_caller(run, interp):
                         kws = dict(kw)
                         if sorted(kws) != sorted(n["kwargs"]):
                             bad = bad or "keyword names changed: %r" % (sorted(kws),)
+                        elif [x[0] for x in kw] != list(n["kwargs"]):
+                            bad = bad or "keyword order changed on the way: sent %r, on the wire %r" % (list(n["kwargs"]), [x[0] for x in kw])
                         else:
                             for k_, v_ in n["kwargs"].items():
                                 e2 = same_arg(v_, kws[k_], ref_ok)
@@ -331,6 +333,8 @@ def ob_callee(run, interp):
                     conds.append(eq)
                 if sorted(k) != sorted(n["kwargs"]):
                     bad = bad or "keyword names seen by the target: %r" % (sorted(k),)
+                elif list(k) != list(n["kwargs"]):
+                    bad = bad or "keyword order seen by the target: %r, sent %r" % (list(k), list(n["kwargs"]))
                 else:
                     for k_, v_ in n["kwargs"].items():
                         e2 = same_arg(v_, k[k_], ref_ok)
